@@ -206,8 +206,9 @@ def opScene (args : List String) : Option String := do
     near := fun a b => nearset.contains (a.val * ngeom + b.val),
     nearPair := fun k => nearp.contains k }
   let ids := bfid M
-  if aamm.length ≠ 6 * ids.length then none
-  let boxes ← mkBoxes? ids aamm.toArray 0 1 2
+  -- mj_broadphase builds AAMMs only when more than one bodyflex is collidable
+  let boxes ← if ids.length > 1 then (if aamm.length ≠ 6 * ids.length then none else mkBoxes? ids aamm.toArray 0 1 2)
+              else (if aamm.isEmpty then some [] else none)
   let maxpair := (nbody * (nbody - 1)) / 2
   let bf := match broadphase M boxes maxpair with
     | .ok l => "bf " ++ ",".intercalate (l.map fun p => toString (sig p.1.val p.2.val))
